@@ -484,9 +484,15 @@ MaskSelectAct ==
        \E t \in Pick({0, 2, 5, 100}) :
          LET M == Binary("lt", Scalar(IF env[x].kind = "f" THEN Q(t) ELSE t, env[x].kind), env[x])
          IN Push([a |-> "MaskSelect", x |-> x, thresh |-> t], MaskSelect(env[x], M))
+UnknownAct ==
+  /\ Allowed("Unknown") /\ CanStep
+  /\ \E x \in Pick({h \in Live : Rank(env[h]) >= 1 /\ Rank(env[h]) <= 3}) : \E op \in Pick({"flatnonzero", "argwhere", "unique"}) :
+       /\ (op = "unique" => \A k \in 1..Len(env[x].data) : ~VIsNaN(env[x].data[k], env[x].kind))
+       /\ Push([a |-> "Unknown", x |-> x, op |-> op],
+               CASE op = "flatnonzero" -> FlatNonzero(env[x]) [] op = "argwhere" -> ArgWhere(env[x]) [] OTHER -> UniqueSorted(env[x]))
 ComputeChunkSizesAct ==
   /\ Allowed("ComputeChunkSizes") /\ CanStep
-  /\ \E x \in Pick({h \in Live : \E j \in 1..Len(prog) : prog[j].out = h /\ prog[j].a = "MaskSelect"}) :
+  /\ \E x \in Pick({h \in Live : \E j \in 1..Len(prog) : prog[j].out = h /\ prog[j].a \in {"MaskSelect", "Unknown"}}) :
        InPlace([a |-> "ComputeChunkSizes", x |-> x], x, env[x])
 
 (***************************************************************************)
@@ -499,7 +505,7 @@ PersistAct ==
 
 Next ==
   \/ Start
-  \/ RechunkSpecAct \/ MapBlocksAct \/ SetItemAct \/ MaskSetAct \/ OutUfuncAct \/ MaskSelectAct \/ ComputeChunkSizesAct \/ PersistAct
+  \/ RechunkSpecAct \/ MapBlocksAct \/ SetItemAct \/ MaskSetAct \/ OutUfuncAct \/ MaskSelectAct \/ UnknownAct \/ ComputeChunkSizesAct \/ PersistAct
   \/ Index \/ Elemwise \/ UnaryAct \/ AsTypeAct \/ TransposeAct \/ ReshapeAct \/ ExpandSqueeze \/ FlipRoll
   \/ ConcatStack \/ RechunkAct \/ ReduceAct \/ ArgReduce \/ CumulativeAct \/ DiffAct \/ WhereAct \/ TakeAct
   \/ BroadcastAct \/ WindowAct \/ WindowReduce \/ DotAct \/ PadRepeat \/ TopKAct
